@@ -161,6 +161,18 @@ func (n *Node) Execute(ctx context.Context) error {
 	return n.data.State.Error
 }
 
+// lockedWriter serialises writers that share one destination.
+type lockedWriter struct {
+	mu sync.Mutex
+	w  io.Writer
+}
+
+func (l *lockedWriter) Write(p []byte) (int, error) {
+	l.mu.Lock()
+	defer l.mu.Unlock()
+	return l.w.Write(p)
+}
+
 func (n *Node) finish() {
 	n.mu.Lock()
 	defer n.mu.Unlock()
@@ -220,19 +232,27 @@ func (n *Node) setupExec(ctx context.Context) (executor.Executor, error) {
 		stdout = io.MultiWriter(n.logWriter, n.stdoutWriter)
 	}
 
+	// stderr goes where stdout goes (log, stdout file) unless it has a file
+	// of its own, but never into the captured output
+	stderr := stdout
+
 	if n.data.Step.Output != "" {
 		var err error
 		if n.outputReader, n.outputWriter, err = os.Pipe(); err != nil {
 			return nil, err
 		}
-		stdout = io.MultiWriter(stdout, n.outputWriter)
+		// stdout and stderr are different writers now, so the executor copies
+		// them concurrently: what they share must be locked
+		shared := &lockedWriter{w: stdout}
+		stderr = shared
+		stdout = io.MultiWriter(shared, n.outputWriter)
 	}
 
 	cmd.SetStdout(stdout)
 	if n.stderrWriter != nil {
 		cmd.SetStderr(n.stderrWriter)
 	} else {
-		cmd.SetStderr(stdout)
+		cmd.SetStderr(stderr)
 	}
 
 	return cmd, nil
